@@ -758,7 +758,7 @@ func (sc *Scope) call(x *SExpr) Val {
 		// upd(a, i, v): ghost array a with element i replaced by v
 		a, i, v := arg(0), arg(1), arg(2)
 		return Val{Typ: nil, Leaves: []*Term{Sto(a.T(), i.T(), v.T())}}
-	case "heapOf":
+	case "heapOf", "lenOf":
 		// heapOf(T.f): the current value of field f for all objects, as an array (argument for recursive spec functions)
 		if len(x.Args) != 1 || x.Args[0].Kind != SSel {
 			sfail("heapOf(T.f)")
@@ -782,6 +782,15 @@ func (sc *Scope) call(x *SExpr) Val {
 			if st.Field(i).Name() == a.Name {
 				lv := vc.fieldLV(Zero, t, "."+a.Name, st.Field(i).Type())
 				ls := vc.e.layout(lv.Typ)
+				if x.Name == "lenOf" {
+					// lenOf(T.f): the length of slice field f for all objects, as an array (sums of list lengths)
+					if len(ls) != 4 {
+						sfail("lenOf: field must be a slice")
+					}
+					n, srt := vc.leafVar(lv, ls[2])
+					vc.noteSort(n, srt)
+					return Val{Typ: nil, Leaves: []*Term{vc.sv(sc.state(), n, srt)}}
+				}
 				if len(ls) != 1 {
 					sfail("heapOf: field must be scalar")
 				}
